@@ -390,6 +390,13 @@ func c14Body(k c14Case, s *bsched.Sched) any {
 	stream := cl.CallBidiStream(ctx)
 	sendIdx := 0
 	doOp := func(op byte) {
+		// Every operation of the client program starts at a yield point.  Without
+		// it an operation that is not a library call (cancel) ran in the same
+		// scheduler step as the tail of the previous one, and what a goroutine
+		// woken by that tail observed depended on the Go runtime (a replay
+		// divergence, i.e. a harness error, about once in five runs of the check
+		// on some trees).
+		s.Gate("op." + string(op))
 		o := opObs{Op: op, Start: tick()}
 		switch op {
 		case 'S':
@@ -737,6 +744,7 @@ func c14Explore(t *testing.T, c *ev.Collector, k c14Case) {
 		}
 	}
 	e.Explore()
+	c.AddExtra("replay_deviations_recovered", int64(len(e.Recovered)))
 	for _, d := range e.Divergences {
 		c.HarnessError("replay divergence in %s: %s", k.key(), d)
 	}
